@@ -137,7 +137,25 @@ def run_impl(c):
             if isinstance(e, (KeyboardInterrupt, SystemExit)):
                 raise
             got = None
-        evals.append([kind, got])
+        evals.append([kind, got, ns])
+    # second pass on the SAME utility object with ANOTHER supplied null score: every degenerate subset (and every fifth of the
+    # others) is evaluated again -- the fallback is the null score supplied with THIS call, whatever was answered before
+    ns2 = ns + 1.75
+    first = list(evals)
+    for k, mask in enumerate(itertools.product([0, 1], repeat=n)):
+        if first[k][0][0] == "ok" and k % 5:
+            continue
+        S = np.array(mask, dtype=bool)
+        try:
+            with warnings.catch_warnings():
+                warnings.simplefilter("ignore")
+                got = float(util(X[S], y[S], Xv, yv, null_score=ns2).score)
+            got = got if math.isfinite(got) else None
+        except BaseException as e:  # noqa
+            if isinstance(e, (KeyboardInterrupt, SystemExit)):
+                raise
+            got = None
+        evals.append([first[k][0], got, ns2])
     checks = {}
     # the importance methods on the same data: finite scores for every unit
     for method, kw in (("bruteforce", {}), ("montecarlo", {"mc_iterations": 4, "seed": 3})):
@@ -159,25 +177,27 @@ def run_impl(c):
 
 def emit(c, o):
     ev = []
-    for kind, got in o["evals"]:
+    for kind, got, null in o["evals"]:
         e = {"ok": None, "ValueError": "EValueError", "RuntimeWarning": "ERuntimeWarning", "other": "EOther"}[kind[0]]
         e = "(EOk %s)" % cf.qq(kind[1]) if kind[0] == "ok" else e
-        ev.append("(%s, %s, %s)" % (e, cf.qq(c["null"]), "None" if got is None else "(Some %s)" % cf.qq(got)))
+        ev.append("(%s, %s, %s)" % (e, cf.qq(null), "None" if got is None else "(Some %s)" % cf.qq(got)))
     return "(mkCase %s %s %s)" % (cf.bools(list(o["checks"].values())), cf.lst(ev), cf.qq(Fraction(1, 10 ** 9)))
 
 
 def nontrivial(c, o):
     if not isinstance(o, dict) or "evals" not in o:
         return False
-    kinds = set(k[0] for k, _ in o["evals"])
+    kinds = set(e[0][0] for e in o["evals"])
     return "ok" in kinds and len(kinds) > 1
 
 
 def distribution(cases, outs):
     from collections import Counter
-    kinds = Counter(k[0] if k[0] != "other" else "other:" + k[1] for o in outs if isinstance(o, dict) and "evals" in o for k, _ in o["evals"])
+    kinds = Counter(k[0] if k[0] != "other" else "other:" + k[1] for o in outs if isinstance(o, dict) and "evals" in o for k, _, _ in o["evals"])
     return {"models": dict(Counter(c["model"] for c in cases)), "metrics": dict(Counter(c["metric"] for c in cases)),
             "subset_evaluations": sum(len(o["evals"]) for o in outs if isinstance(o, dict) and "evals" in o),
+            "second_pass_evaluations_with_another_null": sum(1 for o in outs if isinstance(o, dict) and "evals" in o
+                                                             for e in o["evals"] if e[2] != o["evals"][0][2]),
             "evaluation_kinds": dict(kinds), "supplied_null_scores": dict(Counter(str(c["null"]) for c in cases)),
             "exceptions": dict(Counter(o["exc"] for o in outs if isinstance(o, dict) and "exc" in o))}
 
